@@ -133,7 +133,7 @@ impl PropImpl for C03 {
         vec!["comment:top", "comment:before-first-field", "comment:between-fields", "comment:after-last-field", "comment:between-paragraphs", "comment:end", "multi-line-value", "empty-first-line", "empty-value", "no-space-after-colon", "tab-whitespace", "continuation-starts-with-colon", "several-empty-lines", "no-final-newline", "duplicate-name", "non-ascii-value", "k1-key-without-colon", "k2-name-starts-with-dash", "k3-continuation-of-nothing", "k4-control-or-non-ascii-line-start"]
     }
     fn budget(&self, tier: Tier) -> Budget {
-        Budget { cases_per_lane: if tier == Tier::Quick { 15000 } else { 60_000 }, tape_max: 700, cpu_s: 10 }
+        Budget { cases_per_lane: if tier == Tier::Quick { 45000 } else { 180000 }, tape_max: 700, cpu_s: 10 }
     }
     fn spaces(&self, _tier: Tier) -> Vec<Space> {
         vec![Space { name: "all layouts of the 2x2 skeleton".into(), size: SKELETON_SIZE, exhaustive: true }]
